@@ -393,6 +393,64 @@ class Evaluator:
             out.append((s2, SV(dty, [r])))
         return out
 
+    def ev_ListComp(self, e, st):
+        """[elt for x in xs if cond]: a new list that is the order-preserving image of the kept elements.
+        The element expression and the condition are evaluated once for an arbitrary element (their exceptions propagate,
+        their side effects on existing state are not modelled: only allocation); the result is characterised by index maps."""
+        if len(e.generators) != 1 or not isinstance(e.generators[0].target, ast.Name):
+            raise Unsupported('comprehension shape')
+        g = e.generators[0]
+        name = g.target.id
+        out = []
+        for s, d in self.iter_source(g.iter, st):
+            n, get = d[1], d[2]
+            k = z3.Int(fresh_name('ck'))
+            s1 = self.drain(s).assume(0 <= k, k < n)
+            x = get(k, s1.heap)
+            s1 = self.drain(s1)
+            s1 = s1.assume(*self.W.type_facts(x, s1.heap))
+            s1 = s1.copy(); s1.locals[name] = x
+            # evaluate the filter and the element for the arbitrary element: exceptional outcomes are real outcomes
+            keep_sts = [(s1, True)]
+            if g.ifs:
+                keep_sts = []
+                for s2, cv in self.ev_many(g.ifs, s1):
+                    cond = z3.And([truthy(c_, s2.heap) for c_ in cv])
+                    keep_sts += self.fork(s2, cond)
+            elt_ty = None
+            elt_simple = isinstance(e.elt, ast.Name) and e.elt.id == name
+            for s2, kept in keep_sts:
+                if kept:
+                    for s3, v in self.ev(e.elt, s2):
+                        elt_ty = v.ty if elt_ty is None else join_ty(elt_ty, v.ty)
+            if elt_ty is None:
+                elt_ty = x.ty
+            # the result list (built from the state before the arbitrary element was looked at)
+            s4, r = self.new_ref(self.drain(s), 1)
+            m = z3.Int(fresh_name('clen'))
+            s4 = s4.assume(0 <= m, m <= n)
+            s4.heap.list_set_len(r, m)
+            res = SV(TList(elt_ty), [r])
+            if not g.ifs:
+                s4 = s4.assume(m == n)
+            if elt_simple and len(elt_ty.comps()) == 1:
+                src = z3.Function(fresh_name('csrc'), I, I)
+                dst = z3.Function(fresh_name('cdst'), I, I)
+                j = z3.Int(fresh_name('cj'))
+                arr = s4.heap.list_arr(elt_ty, r)[0]
+                def cond_at(idx):
+                    if not g.ifs:
+                        return z3.BoolVal(True)
+                    cx = SpecCtx(dict(s.locals, **{name: get(idx, s.heap)}), s.heap, s.entry_locals, s.entry_heap, s4, self.frame)
+                    return z3.And([self.S.eval_bool(c_, cx) for c_ in g.ifs] + cx.facts)
+                s4 = s4.assume(
+                    z3.ForAll([j], z3.Implies(z3.And(0 <= j, j < m), z3.And(0 <= src(j), src(j) < n, z3.Select(arr, j) == get(src(j), s.heap).term, cond_at(src(j)),
+                                                                        z3.Implies(j + 1 < m, src(j) < src(j + 1)))), patterns=[src(j), z3.Select(arr, j)]),
+                    z3.ForAll([j], z3.Implies(z3.And(0 <= j, j < n, cond_at(j)), z3.And(0 <= dst(j), dst(j) < m, src(dst(j)) == j)), patterns=[dst(j), get(j, s.heap).term]))
+                s4 = self.drain(s4)
+            out.append((s4, res))
+        return out
+
     def new_ref(self, st, cls_num):
         r = z3.Int(fresh_name('ref'))
         st = st.assume(r > 0, z3.Not(st.heap.is_alloc(r)), cls_of(r) == cls_num)
